@@ -24,7 +24,10 @@ MANIFEST = {
             "decorated string attributes equal the schema's maxLength. With the generic codec theorems (C03/C04) these hold for "
             "documents of every depth. PARTIAL: regex-defined lexical spaces are checked by the schema validators on generated "
             "documents, not proved; the reading direction beyond table level is exercised by an independent specification-driven writer."
-            " The emission order of the levelType children (dict order of IEC61360_LEVEL_TYPES) is regenerated and proved equal to the XSD sequence (c05_level_type_sequence).",
+            " The emission order of the levelType children (dict order of IEC61360_LEVEL_TYPES) is regenerated and proved equal to the XSD sequence (c05_level_type_sequence)."
+            " That the JSON writer leaves ensure_ascii at json's default - the written text is pure ASCII, hence the same document in every ASCII-compatible "
+            "stream encoding - is regenerated (every mention of ensure_ascii in json_serialization.py) and decided (c05_json_text_is_ascii); the oracle writes "
+            "through caller-opened text streams (ascii, cp1252, utf-8).",
     "note": "schema files in /repo are the specification's; class->definition and attribute->member mapping is the spec side "
             "(py/vf/meta.py + NAME rules in c05.py); jsonschema and lxml.XMLSchema are trusted validators (supporting evidence)",
     "technique": "Lean 4 proof: decide over regenerated code tables vs regenerated schema tables + generic codec theorems; schema validators "
@@ -337,7 +340,7 @@ def check_object_all(obj, case: dict, only_variant: Optional[str] = None) -> Lis
     # (round 8) the file-level writer into a text stream the CALLER opened, in the encodings platforms hand out by default: the
     # write succeeds, and the file it leaves is the same JSON document for every consumer that follows the interchange rule
     # (RFC 8259: UTF-8) - in particular for the SDK's own reader given the path
-    if case.get("index", 0) % 3 == 0:
+    if case.get("index", 0) % 6 == 0:
         from basyx.aas.adapter.json import write_aas_json_file
         import tempfile, shutil
         d_ = tempfile.mkdtemp(prefix="verif-c05-")
